@@ -587,8 +587,10 @@ fn collect_incn_files(path: &Path) -> Vec<PathBuf> {
         }
     } else if path.is_dir() {
         if let Ok(entries) = fs::read_dir(path) {
-            for entry in entries.flatten() {
-                let entry_path = entry.path();
+            // in name order: the directory's own order is the file system's business
+            let mut entry_paths: Vec<PathBuf> = entries.flatten().map(|entry| entry.path()).collect();
+            entry_paths.sort();
+            for entry_path in entry_paths {
                 if entry_path.is_dir() {
                     let name = entry_path.file_name().and_then(|n| n.to_str()).unwrap_or("");
                     if !name.starts_with('.') && name != "target" && name != "node_modules" {
